@@ -327,13 +327,23 @@ func c20registry() []c20entry {
 			call:    func(g orb.Geometry) interface{} { return clip.Geometry(b, g) },
 			typed:   clipTyped(b),
 			combine: func(c orb.Collection, ms []interface{}) (interface{}, bool) { return combineGeoms(ms) }})
-		add(c20entry{name: "clip.LineString/MultiLineString read-only (" + bx.n + ")", readOnly: true,
+		add(c20entry{name: "clip.LineString/MultiLineString/MultiPoint and clip.Geometry of 0-d values read-only (" + bx.n + ")", readOnly: true,
 			call: func(g orb.Geometry) interface{} {
 				switch x := g.(type) {
 				case orb.LineString:
 					return []interface{}{clip.LineString(b, x), clip.LineString(b, x, clip.OpenBound(true))}
 				case orb.MultiLineString:
 					return []interface{}{clip.MultiLineString(b, x), clip.MultiLineString(b, x, clip.OpenBound(true))}
+				case orb.MultiPoint:
+					// "returns a new set": the points kept are not written over the caller's
+					return []interface{}{clip.MultiPoint(b, x), clip.Geometry(b, x), smartclip.Geometry(b, x, orb.CW)}
+				case orb.Point:
+					return []interface{}{clip.Geometry(b, x), smartclip.Geometry(b, x, orb.CW)}
+				case orb.Collection:
+					// only 1-d and 2-d input is documented as scratch space: a collection of points and multi points is not
+					if len(x) > 0 && x.Dimensions() == 0 {
+						return []interface{}{clip.Geometry(b, x), clip.Collection(b, x), smartclip.Geometry(b, x, orb.CW)}
+					}
 				}
 				return nil
 			}})
